@@ -69,30 +69,44 @@ def _make(c, kind, L, start=None):
     start = c.int('start')  # unbounded
   spb = c.int('spb', 1, 64)
   spq = c.int('spq', 1, 24)
+  # built=True: the state is reached as a user reaches it without an event
+  # list - an EMPTY sequence created at start_step, then one append per event
+  built = c.params.get('built', False)
+
+  def events_arg(ev):
+    return None if built else list(ev)
+
   if kind == 'melody':
     ml = c.mod('melodies_lib')
     ev = [c.int('e%d' % i, -2, 127) for i in range(L)]
-    seq = ml.Melody(list(ev), start_step=start, steps_per_bar=spb,
+    seq = ml.Melody(events_arg(ev), start_step=start, steps_per_bar=spb,
                     steps_per_quarter=spq)
     pad = -2
   elif kind == 'drums':
     dl = c.mod('drums_lib')
     ev = [_DRUMS[i % 4] for i in range(L)]
-    seq = dl.DrumTrack(list(ev), start_step=start, steps_per_bar=spb,
+    seq = dl.DrumTrack(events_arg(ev), start_step=start, steps_per_bar=spb,
                        steps_per_quarter=spq)
     pad = frozenset()
   elif kind == 'chords':
     cl = c.mod('chords_lib')
     ev = [_CHORDS[i % 4] for i in range(L)]
-    seq = cl.ChordProgression(list(ev), start_step=start, steps_per_bar=spb,
-                              steps_per_quarter=spq)
+    seq = cl.ChordProgression(events_arg(ev), start_step=start,
+                              steps_per_bar=spb, steps_per_quarter=spq)
     pad = 'N.C.'
   else:
     el = c.mod('events_lib')
     ev = [c.int('e%d' % i, 0, 9) for i in range(L)]
-    seq = el.SimpleEventSequence(pad_event=0, events=list(ev), start_step=start,
-                                 steps_per_bar=spb, steps_per_quarter=spq)
+    seq = el.SimpleEventSequence(pad_event=0, events=events_arg(ev),
+                                 start_step=start, steps_per_bar=spb,
+                                 steps_per_quarter=spq)
     pad = 0
+  if built:
+    c.check(c.And(c.eq(seq.start_step, start), c.eq(seq.end_step, start),
+                  len(seq) == 0),
+            'a sequence created without events is empty at its start step')
+    for e in ev:
+      seq.append(e)
   return seq, list(seq), start, spb, spq, pad
 
 
@@ -537,6 +551,11 @@ def jobs(tier):
         add('h_slice', kind=kind, L=L, a=a, b=b, budget=600)
       for left in (False, True):
         add('h_steps', kind=kind, L=L, from_left=left)
+    # states built by appending to an empty sequence created at start_step
+    for L in (0, 2):
+      add('h_append', kind=kind, L=L, built=True)
+      add('h_set_length', kind=kind, L=L, from_left=True, built=True)
+      add('h_steps', kind=kind, L=L, from_left=False, built=True)
   for op in ('append', 'set_length', 'resolution', 'deepcopy', 'steps',
              'slice'):
     for L in (0, 2) if not deep else (0, 1, 2, 3):
